@@ -35,7 +35,7 @@ const keyMutexDeadlock = "deadlock/concurrent-stops-block-run-finaliser"
 func configs(thorough bool) []Config {
 	var out []Config
 	ends := []string{"done", "loop", "assert", "errorlabel", "reserr-body", "reserr-precommit"}
-	mixes := []string{"plain", "closeerr", "incmap", "hashmap", "nested"}
+	mixes := []string{"plain", "closeerr", "incmap", "hashmap", "nested", "twopc", "incmap-closeerr", "hashmap-closeerr"}
 	maxStops := 3
 	if thorough {
 		maxStops = 4
@@ -47,6 +47,9 @@ func configs(thorough bool) []Config {
 					continue // never ends
 				}
 				out = append(out, Config{End: end, Mix: mix, Stops: stops})
+				if !thorough && stops >= 2 && (mix == "twopc" || strings.HasSuffix(mix, "-closeerr")) {
+					continue // quick: the second Run on these mixes with 0 or 1 Stop callers only
+				}
 				out = append(out, Config{End: end, Mix: mix, Stops: stops, SecondRun: true})
 			}
 		}
@@ -60,6 +63,20 @@ func configs(thorough bool) []Config {
 						continue
 					}
 					out = append(out, Config{End: end, Mix: "nested", Stops: stops, Nested: nested, Skip1: skip})
+				}
+			}
+		}
+	}
+	// the nested archetype ends at every step of the request/ack protocol: instead of answering request n, or right
+	// after answering it; requests of L.s0: read, write, precommit, commit (then write, precommit, commit of L.s1), or
+	// with a first attempt that aborts: read, write, abort, read, write, precommit, commit
+	for _, abortOnce := range []bool{false, true} {
+		for n := 1; n <= 7; n++ {
+			for _, on := range []bool{true, false} {
+				for _, kind := range []string{"done", "err", "assert"} {
+					for stops := 0; stops <= 1; stops++ {
+						out = append(out, Config{End: "done", Mix: "nested", Stops: stops, NestedReq: n, NestedOn: on, NestedKind: kind, AbortOnce: abortOnce})
+					}
 				}
 			}
 		}
@@ -206,7 +223,7 @@ func execute(t *testing.T, cfg Config, c bubble.Chooser, strict bool) execOut {
 			if w.R.State() == bubble.Running { // Run is inside a step that waits for virtual time (shutdown of the nested context)
 				offer = true
 				for _, th := range s.ParkedThreads() {
-					if th.External() {
+					if th.External() && !cfg.Late {
 						offer = false
 					}
 				}
@@ -359,7 +376,9 @@ func outcomeOf(w *world, evs []bubble.Event) string {
 type replayCase struct {
 	Cfg     Config `json:"config"`
 	Choices []int  `json:"choices"`
-	Probe   string `json:"probe,omitempty"` // crash probe (child process) instead of a schedule
+	Probe   string `json:"probe,omitempty"`  // crash probe (child process) instead of a schedule
+	Crash   bool   `json:"crash,omitempty"`  // the witness of a process death: replayed in a child process
+	Rounds  int    `json:"rounds,omitempty"` // late-answer schedule: repeated this many times (Go's select coin)
 }
 
 type suspectOut struct {
@@ -380,7 +399,8 @@ func body(t *testing.T, cfg Config, strict bool, sink func(execOut, []int)) func
 			}
 			c.Prune()
 		}
-		r := execute(t, cfg, c, strict)
+		announce(cfg, c.Choices())
+		r := execute(t, cfg, announcing{c, cfg}, strict)
 		if r.fail != nil {
 			failing.Add(1)
 		}
@@ -400,6 +420,113 @@ func body(t *testing.T, cfg Config, strict bool, sink func(execOut, []int)) func
 			c.Outcome(r.outcome)
 		}
 	}
+}
+
+// announcing tells the parent process, before and after every scheduling decision, which execution this shard
+// worker is in: a panic in a goroutine spawned by the code under test kills the worker, and the parent then
+// reports the death as a violation with exactly that execution as its witness.
+type announcing struct {
+	c   *explore.Ctx
+	cfg Config
+}
+
+func announce(cfg Config, choices []int) {
+	if bubble.IsChild() {
+		b, _ := json.Marshal(replayCase{Cfg: cfg, Choices: choices, Crash: true})
+		bubble.Announce(string(b))
+	}
+}
+
+func (a announcing) Choose(n int, label string) int {
+	k := a.c.Choose(n, label)
+	announce(a.cfg, a.c.Choices())
+	return k
+}
+
+func (a announcing) Deviate(n int, label string) int {
+	k := a.c.Deviate(n, label)
+	announce(a.cfg, a.c.Choices())
+	return k
+}
+
+// crashKey derives the identity of a process death from the child's output: the function of the code under
+// test in which the fatal panic was raised.
+func crashKey(out string) (key, first string, ok bool) {
+	i := strings.Index(out, "panic: ")
+	if j := strings.Index(out, "fatal error: "); j >= 0 && (i < 0 || j < i) {
+		i = j
+	}
+	if i < 0 {
+		return "", "", false
+	}
+	lines := strings.Split(out[i:], "\n")
+	first = lines[0]
+	where := "unknown"
+	for _, l := range lines[1:] {
+		if strings.HasPrefix(l, "github.com/DistCompiler/pgo/distsys") {
+			fn := l
+			if k := strings.LastIndex(fn, "("); k > 0 {
+				fn = fn[:k]
+			}
+			fn = fn[strings.LastIndex(fn, "/")+1:]
+			fn = strings.NewReplacer("(*", "", ")", "").Replace(fn)
+			for strings.HasSuffix(fn, ".func1") || strings.HasSuffix(fn, ".func2") || strings.HasSuffix(fn, ".1") {
+				fn = fn[:strings.LastIndex(fn, ".")]
+			}
+			where = fn
+			break
+		}
+	}
+	return "crash/" + where, first, true
+}
+
+// TestOne (child process): one execution, given as a replayCase in C17_ONE; used to replay process deaths.
+func TestOne(t *testing.T) {
+	js := os.Getenv("C17_ONE")
+	if js == "" {
+		t.Skip("child of TestCheck")
+	}
+	var r replayCase
+	if err := json.Unmarshal([]byte(js), &r); err != nil {
+		t.Fatal(err)
+	}
+	v, outc, _ := explore.ReplayOnce(body(t, r.Cfg, true, nil), r.Choices, 1<<20, nil)
+	if v != nil {
+		fmt.Printf("ONE-RESULT fail %s: %s\n", v.Key, v.What)
+	} else {
+		fmt.Printf("ONE-RESULT ok %s\n", outc)
+	}
+}
+
+// replayInChild re-runs one execution in a child process and judges its output.
+func replayInChild(r replayCase) (*Failure, map[string]any) {
+	self := os.Getenv("VERIF_SELF")
+	if self == "" {
+		self = os.Args[0]
+	}
+	r.Crash = false
+	js, _ := json.Marshal(r)
+	cmd := exec.Command(self, "-test.run", "^TestOne$", "-test.v", "-test.count", "1", "-test.timeout", "300s")
+	cmd.Env = append(os.Environ(), "C17_ONE="+string(js), "VERIF_OUT=", "VERIF_REPLAY=", "GOMAXPROCS=1")
+	b, err := cmd.CombinedOutput()
+	txt := string(b)
+	rep := map[string]any{"exit": fmt.Sprint(err)}
+	for _, l := range strings.Split(txt, "\n") {
+		if strings.HasPrefix(l, "ONE-RESULT ") {
+			rep["result"] = l
+			if strings.HasPrefix(l, "ONE-RESULT fail ") {
+				kv := strings.SplitN(strings.TrimPrefix(l, "ONE-RESULT fail "), ": ", 2)
+				return &Failure{kv[0], kv[len(kv)-1]}, rep
+			}
+			return nil, rep
+		}
+	}
+	if key, first, ok := crashKey(txt); ok {
+		rep["panic"] = first
+		return &Failure{key, "the process dies: " + first + " [config " + r.Cfg.Name() + "]"}, rep
+	}
+	rep["output_tail"] = txt[max(0, len(txt)-600):]
+	return nil, rep
 }
 
 type taskOut struct {
@@ -489,12 +616,30 @@ func TestCheck(t *testing.T) {
 			"threads are the real Run goroutine (parked before Run, at the start of every critical section through a gating FairnessCounter, inside every instrumented resource's Close, and between the two Run calls) and real goroutines calling Stop, scheduled inside a testing/synctest bubble; a Stop call runs without interruption until it returns or blocks",
 			"moves that would at once block on runStateLock while a blocked goroutine holds it (observed with a TryLock accessor added by the build overlay) are delayed until the lock is free - waiting for a mutex has no effect of its own; when nothing but such moves is left the execution is a suspected deadlock, and it becomes a verdict only after it was re-run 5 times with the move really made and each time 60 s passed without progress and the goroutine dump showed every goroutine of the bubble in a channel or mutex wait",
 			"Stop callers are interchangeable and start in index order; a run that only a Stop can end is not granted more than 4 sections while a Stop caller has not started",
+			"the late-answer schedule depends on Go's random choice between two ready select cases inside nestedArchetype.Abort, which no scheduler controls: that one forced schedule is repeated 48 times per run with fresh contexts (a defect on one side of the coin is missed with probability 2^-48); it is sampled, not enumerated, and not covered by 'exhaustive'",
+			"a panic in a goroutine spawned by the code under test kills the shard worker; the worker announces every scheduling decision, and the parent reports the death as a violation whose witness (replayed in a child process) is the announced execution",
 			"the nested context runs on its own goroutine inside the bubble, driven by the request/ack protocol; virtual time advances only when nothing else can move, or as an explored alternative while Run waits for the nested context to shut down",
 		}
 		if env.Replay != nil {
 			var r replayCase
 			if err := json.Unmarshal(env.Replay, &r); err != nil {
 				t.Fatal(err)
+			}
+			if r.Crash {
+				f, rep := replayInChild(r)
+				res.Coverage = map[string]any{"evaluations": 1, "distinct_nontrivial": 0, "rule": "replay of one execution in a child process", "samples": []any{rep}}
+				if f != nil {
+					res.Violations = append(res.Violations, hres.Viol{Key: f.Key, What: f.What, Replay: r})
+				}
+				return res
+			}
+			if r.Rounds > 0 {
+				f, rep := lateRounds(t, r.Cfg, r.Rounds)
+				res.Coverage = map[string]any{"evaluations": r.Rounds, "distinct_nontrivial": 0, "rule": "replay of the late-answer schedule, repeated (Go's select coin)", "samples": []any{rep}}
+				if f != nil {
+					res.Violations = append(res.Violations, hres.Viol{Key: f.Key, What: f.What, Replay: r})
+				}
+				return res
 			}
 			if r.Probe != "" {
 				f, rep := crashProbe()
@@ -521,7 +666,7 @@ func TestCheck(t *testing.T) {
 		}
 		sort.SliceStable(tasks, func(a, b int) bool { return weight(cfgs[tasks[a]]) > weight(cfgs[tasks[b]]) })
 		var evals, points, diverg, leakedB int64
-		distinct, discards, capped, done, died, suspected := 0, 0, 0, 0, 0, 0
+		distinct, discards, capped, done, died, suspected, crashed := 0, 0, 0, 0, 0, 0, 0
 		exhaustive := true
 		caps := map[string]int{}
 		viol := map[string]hres.Viol{}
@@ -536,6 +681,23 @@ func TestCheck(t *testing.T) {
 		err := bubble.RunSharded(os.Getenv("VERIF_SELF"), "TestWorker", env.Workers, tasks, env.Deadline, nil, func(r bubble.TaskResult) {
 			cfg := cfgs[r.Task]
 			if r.JSON == nil {
+				if key, first, ok := crashKey(r.Died); ok {
+					// a panic in a goroutine of the code under test killed the worker: a violation, witnessed by the
+					// execution the worker had announced
+					rc := replayCase{Cfg: cfg, Crash: true}
+					json.Unmarshal([]byte(r.Cur), &rc)
+					rc.Crash = true
+					kinds[key]++
+					old, have := violCfg[key]
+					if !have || less(cfgs[r.Task], r.Task, cfgs[old], old) {
+						violCfg[key] = r.Task
+						viol[key] = hres.Viol{Key: key, What: "the process dies instead of Run reporting an error: " + first + " [config " + rc.Cfg.Name() + "]", Replay: rc}
+					}
+					crashed++
+					exhaustive = false
+					caps["process_died_in_code_under_test"]++
+					return
+				}
 				died++
 				exhaustive = false
 				caps["worker_died:"+cfg.Name()]++
@@ -640,6 +802,18 @@ func TestCheck(t *testing.T) {
 			viol[probeFail.Key] = hres.Viol{Key: probeFail.Key, What: probeFail.What, Replay: replayCase{Probe: crashProbeName}}
 		}
 		evals++
+		// the late-answer schedule: its outcome depends on Go's select coin, so it is repeated, not enumerated
+		lateReport := []any{}
+		for _, lc := range lateConfigs() {
+			f, rep := lateRounds(t, lc, lateN)
+			evals += int64(lateN)
+			lateReport = append(lateReport, rep)
+			if f != nil {
+				if _, dup := viol[f.Key]; !dup {
+					viol[f.Key] = hres.Viol{Key: f.Key, What: f.What, Replay: replayCase{Cfg: lc, Rounds: lateN}}
+				}
+			}
+		}
 		keys := make([]string, 0, len(viol))
 		for k := range viol {
 			keys = append(keys, k)
@@ -667,10 +841,12 @@ func TestCheck(t *testing.T) {
 			"step_capped_runs":           capped,
 			"caps_hit":                   caps,
 			"workers_died":               died,
+			"process_deaths_attributed":  crashed,
 			"violation_keys_seen":        kinds,
 			"suspected_mutex_deadlocks":  suspected,
 			"strict_confirmations":       confirm,
 			"crash_probe":                probeReport,
+			"late_answer_rounds":         lateReport,
 			"leaked_bubbles":             leakedB + bubble.Leaked(),
 			"shard_workers":              env.Workers,
 			"bounds":                     "endings {Done, Stop only, assertion, Error label, resource error in body, resource error in PreCommit} x resource mixes {2 plain, plain with failing Close, IncMap with realised elements, HashMap with 3 configured elements, nested-archetype resource with an instrumented inner resource} plus the nested mix with a nested archetype that ends on its own (Done / error / assertion, after serving 0 or 1 outer sections; outer section 2 using or not using the nested resource; outer ending Done or Stop-only; 0-2 Stop callers) x 0-3 (thorough 0-4) Stop callers started at every scheduling point (before Run, at each section start, inside each Close, after Run, around a second Run) x with/without a second Run call, plus Stop callers on a context whose Run is never called; every interleaving, no preemption bound",
@@ -808,7 +984,7 @@ func TestCrashProbe(t *testing.T) {
 	synctest.Test(t, func(t *testing.T) {
 		store := &slowClose{ArchetypeResource: distsys.NewLocalArchetypeResource(num(4)), release: make(chan struct{})}
 		nested := resources.NewNested(func(sendCh chan<- tla.Value, receiveCh <-chan tla.Value) []*distsys.MPCalContext {
-			return []*distsys.MPCalContext{distsys.NewMPCalContext(tla.MakeString("reg"), registerArchetype("done", 0),
+			return []*distsys.MPCalContext{distsys.NewMPCalContext(tla.MakeString("reg"), registerArchetype("done", 0, 0, false, nil),
 				distsys.EnsureArchetypeRefParam("in", resources.NewInputChan(receiveCh)),
 				distsys.EnsureArchetypeRefParam("out", resources.NewOutputChan(sendCh)),
 				distsys.EnsureArchetypeRefParam("store", store))}
@@ -843,6 +1019,76 @@ func TestCrashProbe(t *testing.T) {
 			go outer.Stop()
 		}
 	})
+}
+
+// ---------------------------------------------------------------------------------------------
+// The late-answer schedule (one forced schedule, repeated).  The outer read of the nested resource is
+// delivered, the nested handler is held, the read times out (100 ms, virtual); while the outer body has
+// not yet given up, the nested system answers (the answer stays buffered) and reaches Done; then the outer
+// section aborts.  nestedArchetype.Abort's select then has the buffered answer AND ctxHasStopped ready and
+// Go picks at random - a coin the scheduler cannot control.  The schedule is therefore repeated lateN times
+// per run with fresh contexts: a defect that shows on one side of the coin is missed with probability
+// 2^-lateN.  This is sampling of that one coin, not enumeration; everything else in the schedule is forced.
+
+const lateN = 48
+
+func lateConfigs() []Config {
+	return []Config{
+		{End: "done", Mix: "nested", Stops: 0, Late: true, Skip1: true},
+		{End: "done", Mix: "nested", Stops: 1, Late: true, Skip1: true},
+	}
+}
+
+// lateScript forces the schedule: let virtual time pass when it is first offered (the read times out), then
+// always prefer the nested context's own threads (held handler, end label), else the default.
+type lateScript struct{ timed bool }
+
+func (l *lateScript) pick(n int, label string) int {
+	f := strings.Fields(label) // "sched" then one field per alternative
+	if len(f) < 2 {
+		return 0
+	}
+	alts := f[1:]
+	if !l.timed && alts[len(alts)-1] == "time" {
+		l.timed = true
+		return len(alts) - 1
+	}
+	for i, a := range alts {
+		if strings.HasPrefix(a, "N@") || strings.HasPrefix(a, "Nend@") {
+			return i
+		}
+	}
+	return 0
+}
+func (l *lateScript) Choose(n int, label string) int  { return l.pick(n, label) }
+func (l *lateScript) Deviate(n int, label string) int { return l.pick(n, label) }
+
+func lateRounds(t *testing.T, cfg Config, rounds int) (*Failure, map[string]any) {
+	rep := map[string]any{"config": cfg.Name(), "rounds": rounds}
+	reached, failed := 0, 0
+	var first *Failure
+	for i := 0; i < rounds; i++ {
+		r := execute(t, cfg, &lateScript{}, false)
+		if det, ok := r.detail.([]string); ok {
+			// ground truth that the forced point was reached: the read timed out, the nested system answered and
+			// ended before the outer section aborted
+			txt := strings.Join(det, "\n")
+			if strings.Contains(txt, "R:read(r)!"+distsys.ErrCriticalSectionAborted.Error()) && strings.Contains(txt, "R:abort(r)") {
+				reached++
+			}
+		}
+		if r.fail != nil {
+			failed++
+			if first == nil {
+				first = &Failure{"late-answer/" + r.fail.Key, fmt.Sprintf("round %d of the late-answer schedule: %s [config %s]", i+1, r.fail.What, cfg.Name())}
+				rep["first_failure_detail"] = r.detail
+			}
+		}
+	}
+	rep["reached_the_coin"] = reached
+	rep["failed_rounds"] = failed
+	rep["note"] = fmt.Sprintf("sampled coin (Go's select between the buffered late answer and ctxHasStopped): a defect on one side is missed with probability 2^-%d", rounds)
+	return first, rep
 }
 
 // crashProbe runs TestCrashProbe in a child process and judges its output.
@@ -895,7 +1141,7 @@ func TestStressAck(t *testing.T) {
 	bad := 0
 	for i := 0; i < rounds; i++ {
 		nested := resources.NewNested(func(sendCh chan<- tla.Value, receiveCh <-chan tla.Value) []*distsys.MPCalContext {
-			return []*distsys.MPCalContext{distsys.NewMPCalContext(tla.MakeString("reg"), registerArchetype("done", 1),
+			return []*distsys.MPCalContext{distsys.NewMPCalContext(tla.MakeString("reg"), registerArchetype("done", 1, 0, false, nil),
 				distsys.EnsureArchetypeRefParam("in", resources.NewInputChan(receiveCh)),
 				distsys.EnsureArchetypeRefParam("out", resources.NewOutputChan(sendCh)),
 				distsys.EnsureArchetypeRefParam("store", distsys.NewLocalArchetypeResource(num(4))))}
@@ -966,7 +1212,7 @@ func TestRaceBodies(t *testing.T) {
 		for _, cfg := range cfgs {
 			// (self-ending nested archetypes are left out here: with real 100 ms timeouts a starved machine reaches the
 			// crash window of the nested-abort probe and the panic would end the whole race pass)
-			if cfg.NoRun || cfg.Nested != "" || (r%4 != 0 && cfg.Stops < 2) || (cfg.SecondRun && cfg.End == "loop") {
+			if cfg.NoRun || cfg.Nested != "" || cfg.proto() || cfg.Late || (r%4 != 0 && cfg.Stops < 2) || (cfg.SecondRun && cfg.End == "loop") {
 				continue
 			}
 			w := build(cfg, nil)
